@@ -2,6 +2,7 @@
    impl result: "D <hex>,<hex>,...|<END>"  |  "OOB"  |  other (see harness/h_c15.cpp) *)
 let p = std_params fix42
 let limit = len_limit p
+let maxw = max_width p
 
 let chunks_of s = if s = "-" then [] else List.map nlist_of_hex (split_on ',' s)
 let hexs l = if l = [] then "-" else String.concat "," (List.map hex_of_nlist l)
@@ -52,8 +53,8 @@ let () = run_protocol (fun case impl ->
     let chunks = chunks_of ch in
     let stream = List.concat chunks in
     let (d, e) = run p chunks closed in
-    let om = c15_ok fix42 limit stream closed d (rd_of_ending e) in
+    let om = c15_ok fix42 limit maxw stream closed d (rd_of_ending e) in
     let (di, ei) = parse_impl impl in
-    let oi = c15_ok fix42 limit stream closed di ei in
+    let oi = c15_ok fix42 limit maxw stream closed di ei in
     (show (d, e), oi, om)
   | _ -> ("BAD-CASE", false, false))
